@@ -87,9 +87,13 @@ type baseDiag struct {
 	code string
 }
 
-func runIg(b *e1.IgBase) ([]baseDiag, *prog.Result) {
+func runIg(b *e1.IgBase) ([]baseDiag, *prog.Result) { return runIgOrder(b, false) }
+
+// runIgOrder analyses the program with the files of every package parsed in listed order or in the opposite
+// order (the loader's choice: which file of a package receives the lower positions).
+func runIgOrder(b *e1.IgBase, reverseParse bool) ([]baseDiag, *prog.Result) {
 	p := b.Program()
-	res, err := prog.Run(p, prog.Opts{})
+	res, err := prog.RunOrder(p, prog.Opts{}, reverseParse)
 	if err != nil {
 		common.Fatalf("ignore base/variant does not compile: %v\n%s", err, p.Text())
 	}
@@ -238,6 +242,23 @@ func C07(tier common.Tier) int {
 							gk = append(gk, fmt.Sprintf("%s:%d:%s", nb.Files[g.file].Name+"@"+nb.Files[g.file].Pkg, g.line, g.code))
 						}
 						sort.Strings(gk)
+						// the same variant with the package's files parsed in the opposite order: positions of later files are
+						// then LOWER than those of earlier ones; scopes are per file and must not care
+						{
+							gotR, rres := runIgOrder(nb, true)
+							var rk []string
+							for _, g := range gotR {
+								rk = append(rk, fmt.Sprintf("%s:%d:%s", nb.Files[g.file].Name+"@"+nb.Files[g.file].Pkg, g.line, g.code))
+							}
+							sort.Strings(rk)
+							if strings.Join(rk, "|") != strings.Join(gk, "|") || rres.Panic != "" {
+								missing, extra := diffKeys(gk, rk)
+								run.Report(common.Cex{Sig: fmt.Sprintf("ignore-parse-order|placement=%s|list=%s|lost=%s|gained=%s", pl, l.name, codesOf(missing), codesOf(extra)),
+									Summary: fmt.Sprintf("with the @ignore comment (%s, %s) the diagnostics depend on the order in which the loader parsed the package's files: only in listed order %v, only in reversed order %v %s", pl, l.name, missing, extra, rres.Panic),
+									Detail:  map[string]any{"program": nb.Program().Text()}})
+							}
+							run.State(1, "", "")
+						}
 						want := expectedIg(b, base, v, l.tokens)
 						nt := ""
 						var baseKeys []string
